@@ -85,6 +85,28 @@ def run(ctx):
         sc = sigclass(s)
         if sc[0] != ("asc",):
             ctx.sig(*sc)
+    # wear: the same process has by now escaped every BMP code point; escape every supplementary one as well (1 114 112 distinct code points in all), then
+    # ask again for the literals of the ASCII specials and of a sample of everything - an answer may not depend on how much was escaped before
+    for base in range(0x10000, 0x110000, 0x400):
+        ctx.count("code_points_escaped_before_the_second_pass", 0x400)
+        try:
+            writer.string("".join(chr(c) for c in range(base, base + 0x400)))
+        except Exception as e:
+            ctx.violation("string-raises", "writer.string raises", {"plane_block": "%x" % base, "exc": exc_str(e)})
+            break
+    second = [chr(i) for i in range(0x100)] + ["\"", "\\", "a\"b\\c\n\r\t'", "\\u0041", "\n\r", "x\0y", "\x7f\x85"] + rng.sample(cases, 3000)
+    for s in second:
+        ctx.ev()
+        ctx.count("writer.string_second_pass")
+        try:
+            got = J.jls_decode_string_literal(writer.string(s))
+        except Exception as e:
+            ctx.violation("second-pass-" + classify(s, None, None), "after the process has escaped every code point once, the literal of a string is malformed / raises",
+                          {"units": J.utf16_units(s)[:40], "error": exc_str(e)})
+            continue
+        if got != J.utf16_units(s):
+            ctx.violation("second-pass-" + classify(s, None, None), "after the process has escaped every code point once, the literal of a string denotes something else",
+                          {"units": J.utf16_units(s)[:40], "literal": writer.string(s)[:200], "denotes": got[:40]})
     end_to_end(ctx, rng)
     ctx.sample({"s_units": J.utf16_units("a\"\\\n\U0001F600"), "literal": writer.string("a\"\\\n\U0001F600")})
     ctx.sample({"s_units": [0xD800], "literal": writer.string("\ud800")})
@@ -96,6 +118,8 @@ def run(ctx):
             return
         javac_oracle(ctx, cases, lits)
     ctx.require_counter("writer.string", 65536)
+    ctx.require_counter("writer.string_second_pass", 3000)
+    ctx.require_counter("code_points_escaped_before_the_second_pass", 0x100000)
     ctx.require_counter("const_strings_decompiled", 200)
 
 
